@@ -90,12 +90,12 @@ theorem reply_no_other (xid : Bytes) (req : Pkt4) (k : UInt8) (h1 : k ≠ optAge
 
 theorem offer_nil_opts (xid : Bytes) (offer : Pkt4) (k : UInt8) :
     (build (.requestFromOffer offer) xid []).opts.get k =
-      if k = optParamList then some stdRequested
+      if k = optParamList then some [1, 3, 15, 6]
       else if k = optServerID then copiedValue offer optServerID
       else if k = optRequestedIP then some (ipTo4Bytes offer.yiaddr)
       else if k = optMessageType then some [mtRequest] else none := by
   rw [requestFromOffer_nil]
-  show ((copyOpt offer optServerID _).set optParamList stdRequested).get k = _
+  show ((copyOpt offer optServerID _).set optParamList [1, 3, 15, 6]).get k = _
   rw [Opts.get_set]
   by_cases h1 : k = optParamList
   · simp [h1]
@@ -300,7 +300,7 @@ theorem user_prevails (b : Builder) (xid : Bytes) (user : List Modifier) :
     (∀ c, (build b xid (user ++ [.withoutOption c])).opts.get c = none) ∧
     (∀ c v, (build b xid (user ++ [.withGeneric c v])).opts.get c = some v) ∧
     (∀ cs, (build b xid (user ++ [.withRequestedOptions cs])).opts.get optParamList =
-        some (addCodes (paramRequestList (build b xid user)) cs)) := by
+        some ((addCodes (paramRequestList (build b xid user)) cs).map (·.code))) := by
   refine ⟨fun t => ?_, fun ip => ?_, fun x => ?_, fun hw => ?_, fun ip => ?_, ?_, ?_, fun c => ?_,
     fun c v => ?_, fun cs => ?_⟩
   all_goals rw [build_snoc]
